@@ -339,6 +339,43 @@ func Structures() []Entry {
 		"res \"aws\" \"a\" {\n}\n/* \u017e */ res \"a\" \"n\" {\n}\n",
 	)
 
+	// a block type without a static body whose dependent body resolves
+	add("dep-nostatic", func() *schema.BodySchema {
+		return &schema.BodySchema{Blocks: map[string]*schema.BlockSchema{
+			"foo": {
+				Labels: []*schema.LabelSchema{{Name: "type", IsDepKey: true, Completable: true}},
+				DependentBody: map[schema.SchemaKey]*schema.BodySchema{
+					depKey([]schema.LabelDependent{lbl(0, "a")}, nil): markerBody("m_a", func(b *schema.BodySchema) {
+						b.Attributes["rq"] = &schema.AttributeSchema{Constraint: schema.LiteralType{Type: cty.String}, IsRequired: true}
+						b.Blocks = map[string]*schema.BlockSchema{"nb": {Body: &schema.BodySchema{Attributes: map[string]*schema.AttributeSchema{"n": strAttr(nil)}}}}
+					}),
+				},
+			},
+		}}
+	},
+		"foo \"a\" {\n  m_a = \"x\"\n  bogus = 1\n  nb {\n    n = \"q\"\n    zz = 1\n  }\n}\nfoo \"zz\" {\n  bogus = 1\n}\n",
+		"foo \"a\" {\n  rq = \"r\"\n  \n}\n",
+	)
+
+	// a block whose static AND dependent body are both addressable as data
+	add("dep-bothdata", func() *schema.BodySchema {
+		return &schema.BodySchema{Blocks: map[string]*schema.BlockSchema{
+			"res": {
+				Labels: []*schema.LabelSchema{{Name: "type", IsDepKey: true}, {Name: "name"}},
+				Body:   &schema.BodySchema{Attributes: map[string]*schema.AttributeSchema{"static": strAttr(nil)}},
+				DependentBody: map[schema.SchemaKey]*schema.BodySchema{
+					depKey([]schema.LabelDependent{lbl(0, "x")}, nil): {Attributes: map[string]*schema.AttributeSchema{"dep": {Constraint: schema.LiteralType{Type: cty.Number}, IsOptional: true}}},
+				},
+				Address: &schema.BlockAddrSchema{
+					Steps:      schema.Address{schema.LabelStep{Index: 0}, schema.LabelStep{Index: 1}},
+					BodyAsData: true, InferBody: true, DependentBodyAsData: true, InferDependentBody: true, AsReference: true,
+				},
+			},
+		}}
+	},
+		"res \"x\" \"a\" {\n  static = \"s\"\n  dep = 1\n}\nres \"zz\" \"b\" {\n  static = \"t\"\n}\n",
+	)
+
 	add("dep-2labels", func() *schema.BodySchema {
 		return &schema.BodySchema{Blocks: map[string]*schema.BlockSchema{
 			"two": {
